@@ -429,13 +429,14 @@ def validCall (Γ : Env) (params : List (Bytes × Ty)) (binds : List (Bytes × B
 
 /-! ## What an expression denotes at run time -/
 
-/-- the JSON text `FloatExp.EncodeJSON` writes (`strconv.AppendFloat(v, 'g', -1, 64)`),
-as far as the syntax class matters: an integral value of magnitude below `10^6`
-is written in integer syntax (`%f` with no fraction), everything else in float
-syntax (fraction and/or exponent). -/
+/-- the JSON number `FloatExp.EncodeJSON` writes: an integral value that fits
+`int64` (`float64(int64(v)) == v`, the same test `IsValidExpression` uses to
+accept the literal for an `int` parameter) is written in integer syntax
+(`strconv.AppendInt`), everything else in float syntax
+(`strconv.AppendFloat(v, 'g', -1, 64)`: fraction and/or exponent). -/
 def litFloat (m e : Int) : Num :=
   match (Num.flt m e).intValue? with
-  | some i => if i.natAbs < 1000000 then .int i else .flt m e
+  | some i => if Num.inInt64 i then .int i else .flt m e
   | none => .flt m e
 
 /-- run-time values: of the pipeline's inputs and of the (merged) outputs of
@@ -526,25 +527,6 @@ mutual
       (match kvs.get k with
         | none => true
         | some e => holeFree Γ t e) && holeFreeFields Γ r kvs
-end
-
-mutual
-  /-- literals only: every integral float literal has magnitude below `10^6`
-  (so that it is written in integer syntax, see `litFloat`) -/
-  def Exp.smallFloats : Exp → Bool
-    | .float m e =>
-      match (Num.flt m e).intValue? with
-      | some i => decide (i.natAbs < 1000000)
-      | none => true
-    | .arr xs => xs.smallFloats
-    | .map _ kvs => kvs.smallFloats
-    | _ => true
-  def Exps.smallFloats : Exps → Bool
-    | .nil => true
-    | .cons e r => e.smallFloats && r.smallFloats
-  def KVs.smallFloats : KVs → Bool
-    | .nil => true
-    | .cons _ e r => e.smallFloats && r.smallFloats
 end
 
 end Martian.Typing
